@@ -14,6 +14,7 @@ def run(ctx):
     ctx.design("Thread/Locks.tla", "Locks_fork_wonly.cfg", workers=4, timeout=300, note="fork kind, 2x2, unique mode only (prefork_acceptor): Excl, Backed")
     ctx.design("Thread/Locks.tla", "Locks_fork_bug.cfg", workers=4, timeout=300, expect_violation="Excl",
                note="fork kind, 2 processes x 2 threads, shared mode in use: Excl is violated (the record lock belongs to the process)")
+    ctx.tlapm("Thread/tlaps/ForkLockProof.tla", note="TLAPS: fork_shared_mutex in unique mode only is exclusive for ANY number of processes and threads (39 obligations)")
     if not q:
         ctx.design("Thread/Locks.tla", "Locks_rw_big.cfg", workers=8, timeout=900, note="rw kind, 3x2 actors, depth 3")
         ctx.design("Thread/Locks.tla", "Locks_fork_big.cfg", workers=8, timeout=900, note="fork kind, 4 processes x 1 thread")
